@@ -110,10 +110,9 @@ def sort(ty):
         dt.declare("some", ("val", sort(ty.elem)))
         s = dt.create()
     elif isinstance(ty, TDict):
-        dt = z3.Datatype("D_" + _mangle(ty))
-        dt.declare("mk", ("keys", z3.SeqSort(sort(ty.key))),
-                   ("map", z3.ArraySort(sort(ty.key), sort(TOpt(ty.val)))))
-        s = dt.create()
+        # a dict value is the map  key -> Option(value); its insertion-ordered key sequence is the uninterpreted
+        # function dkeys_<T>(map), constrained at every operation site (see speclib.dict_store / dict_delete)
+        s = z3.ArraySort(sort(ty.key), sort(TOpt(ty.val)))
     elif isinstance(ty, TSet):
         s = z3.ArraySort(sort(ty.elem), z3.BoolSort())
     else:
